@@ -41,6 +41,10 @@ CHECKS = {
    technique=TECH + "shape monitor on every step of seeded runs; static replica vs three dyn replicas (tick-wise, config over, chunked instance over) compared bitwise; set() through static and dyn interface compared against the expected configuration tree read through the serde seam (partial fit: set() is a stateless clause, decided by seeded sampling)",
    text="Every indicator, default and mutated valid configurations, every public parameter name (enumerated from the serialized configuration) with parsable and unparsable texts, unknown and near-miss names; shape/name/dyn equivalence at every step of fault-feed candle streams.",
    note="Public parameter names = pub fields of the configuration struct = fields of its serialized form (Example: `price`). Expected parse results are produced by the harness (decimal numbers, source names, 'kind-len')."),
+ "C08": dict(level="exploration", design="§4 C08",
+   technique=TECH + "duplicate-delivery fault on the first tick: replicas R_k receive k extra leading copies of the first element (k in {1,2,n-1,n,n+1,3n,1000}, thorough up to 10^6); constancy during the duplicated prefix (exact for selections/signals, drift-free allowance for arithmetic) and replica agreement with R_0 afterwards; ill-conditioned steps identified by a few-ulp input perturbation replica",
+   text="Every method, wrapper, MA kind and indicator with seeded parameters, initial values of any magnitude/sign/zero, fault-feed continuations. The allowance for arithmetic outputs does not grow with the number of copies, so unbounded drift is detected at large k (thorough).",
+   note="Allowance 2*D(0) with the largest frozen method constant; signals compared exactly while values are bit-identical and outside the allowance of zero (three-valued logic, DESIGN.md §3.4); steps whose value moves more than the allowance under a few-ulp perturbation of the inputs are exempt (ill-conditioned). Known findings: TrendStrengthIndex on constant input, RVI on zero-range stretches."),
 }
 NA = {
  "C16": "Action algebra is a total, stateless algebra over a finite domain: no history, state, fault, replica or schedule for a simulator to drive; the fitting technique (exhaustive enumeration) is model checking, which this task excludes (DESIGN.md §5).",
